@@ -124,6 +124,18 @@ pub fn dn_value(kind: StrKind, text: &str) -> DnValue {
 	}
 }
 
+/// like `dn_value`, but reports rcgen's own verdict instead of insisting on the model's
+pub fn try_dn_value(kind: StrKind, text: &str) -> Option<DnValue> {
+	Some(match kind {
+		StrKind::Utf8 => DnValue::Utf8String(text.to_string()),
+		StrKind::Printable => DnValue::PrintableString(PrintableString::try_from(text).ok()?),
+		StrKind::Ia5 => DnValue::Ia5String(Ia5String::try_from(text).ok()?),
+		StrKind::Teletex => DnValue::TeletexString(TeletexString::try_from(text).ok()?),
+		StrKind::Bmp => DnValue::BmpString(BmpString::try_from(text).ok()?),
+		StrKind::Universal => DnValue::UniversalString(UniversalString::try_from(text).ok()?),
+	})
+}
+
 pub fn name_to_rcgen(n: &NameSpec) -> DistinguishedName {
 	let mut dn = DistinguishedName::new();
 	for a in n {
@@ -204,7 +216,7 @@ pub fn name_key(n: &crate::x509::Name) -> String {
 		.iter()
 		.map(|rdn| {
 			rdn.iter()
-				.map(|a| format!("{:?}/{}/{}", a.oid, a.tag, crate::util::hex(&a.bytes)))
+				.map(|a| format!("{}/{}/{}", crate::util::hex(&a.oid_raw), a.tag, crate::util::hex(&a.bytes)))
 				.collect::<Vec<_>>()
 				.join("+")
 		})
@@ -214,7 +226,7 @@ pub fn name_key(n: &crate::x509::Name) -> String {
 
 pub fn name_spec_key(n: &NameSpec) -> String {
 	n.iter()
-		.map(|a| format!("{:?}/{}/{}", a.ty.oid(), a.kind.tag(), crate::util::hex(&a.kind.encode(&a.text))))
+		.map(|a| format!("{}/{}/{}", crate::util::hex(&derx::encode_oid_content(&a.ty.oid())), a.kind.tag(), crate::util::hex(&a.kind.encode(&a.text))))
 		.collect::<Vec<_>>()
 		.join(",")
 }
